@@ -122,8 +122,10 @@ pub fn scenario_cut(ctx: &mut Ctx) -> ScResult {
         // the stand-alone header decoder on short input
         if c < 20 {
             let r = g("C17", "MessageHeader::from_bytes", || MessageHeader::from_bytes(p).map(|_| ()))?;
-            if !matches!(r, Err(StunParseError::Truncated { expected: 20, actual }) if actual == c) {
-                let v = Violation::new("C17", "header_short_input", "MessageHeader::from_bytes", format!("MessageHeader::from_bytes on {c} bytes answered {r:?}"));
+            // (C17 constrains the header decoder on 20-byte prefixes only; on shorter input it must
+            // merely not accept)
+            if r.is_ok() {
+                let v = Violation::new("C17", "header_short_input", "MessageHeader::from_bytes", format!("MessageHeader::from_bytes accepted {c} bytes: {r:?}"));
                 ev!(ctx, "  !! {}", v.message);
                 return Err(v);
             }
@@ -1004,12 +1006,16 @@ fn judge_exposure(ctx: &mut Ctx, x: &[u8], lc: &MessageIntegrityCredentials) -> 
                 ev!(ctx, "  !! {} [{}] {}", v.clause, v.site, v.message);
                 return Err(v);
             }
-            // the attribute validate_integrity reports lies in the exposed list
+            // "every exposed attribute ... lies inside the byte range covered by the HMAC that
+            // validate_integrity checks": in an accepted message every integrity attribute comes after
+            // all ordinary attributes, so whichever one validation reports covers them — provided one
+            // of that algorithm is really there (exposed or not: an implementation that also verifies
+            // the hidden one checks more, not less)
             let r = g("C10", "Message::validate_integrity", || msg.validate_integrity(lc))?;
             if let Ok(a) = r {
                 let ty = alg_type(a);
-                if !view.exposed.iter().any(|&i| view.all[i].ty == ty) {
-                    let v = Violation::new("C10", "validated_attribute_is_exposed", &tail_names(view), format!("validate_integrity reported {a:?}, an attribute that is not exposed"));
+                if !view.all.iter().any(|x| x.ty == ty) {
+                    let v = Violation::new("C10", "validated_attribute_covers_exposed", &tail_names(view), format!("validate_integrity reported {a:?}, but the message carries no attribute of that algorithm"));
                     ev!(ctx, "  !! {}", v.message);
                     return Err(v);
                 }
